@@ -733,7 +733,8 @@ def analyze(ctx, want):
             elif c and variant_of(ex, p, c[0][4]) == "Err":
                 ob("C13.f", "build-propagates-the-error:" + M.short_name(fn.name), r[0] == "adt" and r[2] == "Err", "returns %s" % S.vstr(r)[:100], fn.loc())
     bu = F.fn(r"scanner_builder::ScannerBuilder::build_uncached$")
-    ex, paths = run_fn(bu, F, BaseModel())
+    # (the public Scanner::try_from(Vec<ScannerMode>) is the same conversion, wrapped: looked through)
+    ex, paths = run_fn(bu, F, BaseModel(), inline=r"scanner::Scanner as std::convert::TryFrom<std::vec::Vec<scanner_mode::ScannerMode>>>::try_from$")
     n = 0
     for p in ret_paths(paths):
         c = [e for e in p.events if e[0] == "call" and re.search(r"TryInto<internal::scanner_impl::ScannerImpl>>::try_into$|ScannerImpl as std::convert::TryFrom<std::vec::Vec<scanner_mode::ScannerMode>>>::try_from$", e[2])]
